@@ -1,5 +1,5 @@
 CONSTANTS Components <- MComponents Mutators <- MMutators CompOf <- MCompOf Contexts <- MContexts ProcessWide = {"umask", "ulimit"} MaxMut = 2 JobWaited <- MJobWaited
-DEV = {"ProcessWideShared"}
+DEV = {"ExitPropagates"}
 SPECIFICATION Spec
-INVARIANTS OnlyProcessWideLeaks LeakNeedsMutation ParentSurvives Emit
+INVARIANTS ParentSurvives
 CHECK_DEADLOCK FALSE
